@@ -108,36 +108,134 @@ func c04R2R3(p *Prog, r *Report) {
 		}
 		return false
 	}
-	n := 0
-	Instrs(fn, func(in ssa.Instruction) {
-		ia, ok := in.(*ssa.IndexAddr)
-		if !ok || !isBuffers(ia.X) {
-			return
+	// helpers of the source that are handed the buffers: there the parameter stands for them
+	bufParam := map[ssa.Value]bool{}
+	hosts := []*ssa.Function{fn}
+	for _, h := range recvHelpers(fn, 2) {
+		if h == fn {
+			continue
 		}
-		n++
-		if k, isC := constInt(ia.Index); isC {
-			// constant index: only as argument of len()
-			onlyLen := true
-			for _, ref := range *ia.Referrers() {
-				if u, ok := ref.(*ssa.UnOp); ok {
-					for _, r2 := range *u.Referrers() {
-						c, isCall := r2.(*ssa.Call)
-						if !isCall {
-							onlyLen = false
-							continue
-						}
-						if b, ok := c.Call.Value.(*ssa.Builtin); !ok || b.Name() != "len" {
-							onlyLen = false
+		sites, _ := p.staticCallSites(h)
+		for _, site := range sites {
+			cc := CallOf(site)
+			if site.Parent() != fn || len(cc.Args) != len(h.Params) {
+				continue
+			}
+			for i, a := range cc.Args {
+				if isBuffers(a) {
+					bufParam[h.Params[i]] = true
+					hosts = append(hosts, h)
+				}
+			}
+		}
+	}
+	isBuffers0 := isBuffers
+	isBuffers = func(v ssa.Value) bool { return bufParam[v] || isBuffers0(v) }
+	n := 0
+	for _, host := range hosts {
+		Instrs(host, func(in ssa.Instruction) {
+			ia, ok := in.(*ssa.IndexAddr)
+			if !ok || !isBuffers(ia.X) {
+				return
+			}
+			n++
+			if k, isC := constInt(ia.Index); isC {
+				// constant index: only as argument of len()
+				onlyLen := true
+				for _, ref := range *ia.Referrers() {
+					if u, ok := ref.(*ssa.UnOp); ok {
+						for _, r2 := range *u.Referrers() {
+							c, isCall := r2.(*ssa.Call)
+							if !isCall {
+								onlyLen = false
+								continue
+							}
+							if b, ok := c.Call.Value.(*ssa.Builtin); !ok || b.Name() != "len" {
+								onlyLen = false
+							}
 						}
 					}
 				}
+				r.Check(onlyLen, "C04.R2", fmt.Sprintf("buffer index #%d (constant %d) is used only for a length", n, k), p.InstrPos(in), "len(datacopies[k])", "a readout-order buffer is addressed by a constant index for its contents")
+				return
 			}
-			r.Check(onlyLen, "C04.R2", fmt.Sprintf("buffer index #%d (constant %d) is used only for a length", n, k), p.InstrPos(in), "len(datacopies[k])", "a readout-order buffer is addressed by a constant index for its contents")
-			return
-		}
-		r.Check(dependsOnField(ia.Index, "chan2readoutOrder"), "C04.R2", fmt.Sprintf("buffer index #%d goes through the channel-to-readout table", n), p.InstrPos(in), "index derived from chan2readoutOrder",
-			"the demultiplexed buffers (readout order: row-major) are indexed with `"+c05Describe(ia.Index, nil, 0)+"`, which does not go through the channel-to-readout table: with more than one column this addresses another row/column than intended")
-	})
+			r.Check(dependsOnField(ia.Index, "chan2readoutOrder"), "C04.R2", fmt.Sprintf("buffer index #%d goes through the channel-to-readout table", n), p.InstrPos(in), "index derived from chan2readoutOrder",
+				"the demultiplexed buffers (readout order: row-major) are indexed with `"+c05Describe(ia.Index, nil, 0)+"`, which does not go through the channel-to-readout table: with more than one column this addresses another row/column than intended")
+		})
+	}
+	// the mixer of channel k works on the buffers the table gives for k (feedback) and k-1 (error):
+	// the mixer objects are addressed by channel index (that is how mix fractions are requested)
+	for _, host := range hosts {
+		hpc := NewPolyCtx(host)
+		Instrs(host, func(in ssa.Instruction) {
+			cc := CallOf(in)
+			if cc == nil || cc.StaticCallee() == nil || cc.StaticCallee().Name() != "MixRetardFb" || len(cc.Args) != 3 {
+				return
+			}
+			// receiver: ls.Mix[K]
+			var K ssa.Value
+			if ld, ok := cc.Args[0].(*ssa.UnOp); ok && ld.Op == token.MUL {
+				if ia, ok := ld.X.(*ssa.IndexAddr); ok {
+					if _, f, _, okf := FieldOf(ia.X); okf && f == "Mix" {
+						K = ia.Index
+					}
+				}
+			} else if ia, ok := cc.Args[0].(*ssa.IndexAddr); ok {
+				if _, f, _, okf := FieldOf(ia.X); okf && f == "Mix" {
+					K = ia.Index
+				}
+			}
+			key := "the mixer of a channel works on that channel's feedback buffer and its error partner's (" + FuncName(host) + ")"
+			if K == nil {
+				r.Unk("C04.R2", key, p.InstrPos(in), "the mixer object is not taken from the source's table of mixers by an index")
+				return
+			}
+			// the channel whose table entry selects the buffer handed over
+			chanOf := func(arg ssa.Value) ssa.Value {
+				var B ssa.Value
+				switch x := arg.(type) {
+				case *ssa.IndexAddr:
+					if isBuffers(x.X) {
+						B = x.Index
+					}
+				case *ssa.Alloc:
+					for _, ref := range *x.Referrers() {
+						if st, ok := ref.(*ssa.Store); ok && st.Addr == ssa.Value(x) {
+							if ld, ok := st.Val.(*ssa.UnOp); ok && ld.Op == token.MUL {
+								if ia, ok := ld.X.(*ssa.IndexAddr); ok && isBuffers(ia.X) {
+									B = ia.Index
+								}
+							}
+						}
+					}
+				}
+				if B == nil {
+					return nil
+				}
+				if ld, ok := stripConv(B).(*ssa.UnOp); ok && ld.Op == token.MUL {
+					if ia, ok := ld.X.(*ssa.IndexAddr); ok {
+						if _, f, _, okf := FieldOf(ia.X); okf && f == "chan2readoutOrder" {
+							return ia.Index
+						}
+					}
+				}
+				return B // not looked up in the table: the buffer index itself
+			}
+			fbCh, errCh := chanOf(cc.Args[1]), chanOf(cc.Args[2])
+			if fbCh == nil || errCh == nil {
+				r.Unk("C04.R2", key, p.InstrPos(in), "the buffers handed to the mixer are not elements of the demultiplexed buffers in a recognised form")
+				return
+			}
+			viaTable := func(arg ssa.Value) bool {
+				return dependsOnField(arg, "chan2readoutOrder") || argThroughTable(arg, isBuffers)
+			}
+			kP := hpc.Of(K)
+			okFb := hpc.Of(fbCh).Equal(kP) && viaTable(cc.Args[1])
+			okErr := hpc.Of(errCh).Equal(kP.Sub(polyConst(1))) && viaTable(cc.Args[2])
+			r.Check(okFb && okErr, "C04.R2", key, p.InstrPos(in), "Mix[k] with buffers[table[k]] and buffers[table[k-1]]",
+				"the mixer object Mix["+c05Describe(K, nil, 0)+"] (mixers are addressed by channel index: that is the index a mix request names) is applied to the buffers at `"+c05Describe(fbCh, nil, 0)+"` / `"+c05Describe(errCh, nil, 0)+"`"+map[bool]string{true: " of the channel-to-readout table", false: " in readout order, not through the channel-to-readout table"}[viaTable(cc.Args[1])]+": with more than one row and column the mix fraction requested for one channel acts on another, and the requested channel is delivered unmixed")
+		})
+	}
 	if n == 0 {
 		r.Bad("C04.R2", "block assembly indexes the demultiplexed buffers", p.Pos(fn.Pos()), "no index into the buffers found")
 	}
@@ -427,6 +525,37 @@ func c04R2R3(p *Prog, r *Report) {
 		}
 	}
 	r.Check(okForm, "C04.R3", "the recorded count is (frame + block counter)*rows + row", p.InstrPos(appendAt), d.String(), "the recorded external-trigger count is "+d.String()+", want (frame + nextFrameNum)*nrows + row")
+	// ... and the counter is read as it stands before this block is numbered: no advance of the
+	// counter (a store, or a call of a helper that stores it) can come before the read
+	if okForm {
+		if cv, okv := pc.symValue(ctrS); okv {
+			if ld, isIn := cv.(ssa.Instruction); isIn && ld.Parent() == fn {
+				advanced := ""
+				Instrs(fn, func(in ssa.Instruction) {
+					adv := false
+					if st, ok := in.(*ssa.Store); ok {
+						if _, f, _, okf := FieldOf(st.Addr); okf && f == "nextFrameNum" {
+							adv = true
+						}
+					}
+					if cc := CallOf(in); cc != nil {
+						if h := cc.StaticCallee(); isModuleFn(h) && h != fn {
+							for _, hf := range DeepFuncs(h, 2) {
+								if len(StoresTo(hf, "", "nextFrameNum")) > 0 {
+									adv = true
+								}
+							}
+						}
+					}
+					if adv && in != ld && InstrReaches(in, ld) {
+						advanced = p.InstrPos(in)
+					}
+				})
+				r.Check(advanced == "", "C04.R3", "the block counter in the recorded count is read before the block is numbered", p.InstrPos(ld), "no advance of the frame counter can precede the read",
+					"the frame counter used for the external-trigger counts is read after it was advanced at "+advanced+": it is then the number of the frame after this block, so every count is too large by this block's frames (times the rows), a shift that differs from block to block, and no longer names the frame and row in which the edge rose")
+			}
+		}
+	}
 	// nrows comes from an active card
 	if nrowsS != "" {
 		okSrc := strings.Contains(nrowsS, "active") && !strings.Contains(nrowsS, "devices")
@@ -1084,4 +1213,30 @@ func c04R6(p *Prog, r *Report) {
 			r.OK("C04.R6", key, p.InstrPos(sites[0]), "not reachable from getNextBlock")
 		}
 	}
+}
+
+// argThroughTable: the buffer handed over (an element address, or a local holding an element) is
+// selected by an index read from the channel-to-readout table.
+func argThroughTable(arg ssa.Value, isBuffers func(ssa.Value) bool) bool {
+	idx := func(v ssa.Value) ssa.Value {
+		switch x := v.(type) {
+		case *ssa.IndexAddr:
+			if isBuffers(x.X) {
+				return x.Index
+			}
+		case *ssa.Alloc:
+			for _, ref := range *x.Referrers() {
+				if st, ok := ref.(*ssa.Store); ok && st.Addr == ssa.Value(x) {
+					if ld, ok := st.Val.(*ssa.UnOp); ok && ld.Op == token.MUL {
+						if ia, ok := ld.X.(*ssa.IndexAddr); ok && isBuffers(ia.X) {
+							return ia.Index
+						}
+					}
+				}
+			}
+		}
+		return nil
+	}
+	b := idx(arg)
+	return b != nil && dependsOnField(b, "chan2readoutOrder")
 }
